@@ -351,13 +351,18 @@ def post_call_baf(run, snap, res, args, kwargs):
     mon = "call.do_call[baf-attached]"
     if snap is None:
         return
-    if snap["filters"] or "alt_freq" not in snap["cols"] or "baf" not in res.data.columns:
-        return run.ood(mon, "filters-or-no-frequencies")
+    # ci / sem merge segments *before* the BAF is attached, so every output segment still carries the median of its own SNVs;
+    # cn / ampdel merge afterwards and average the pieces' values (that aggregation is C14's business)
+    pre_only = set(snap["filters"]) <= {"ci", "sem"}
+    if not pre_only or "alt_freq" not in snap["cols"] or "baf" not in res.data.columns:
+        return run.ood(mon, "post-calling-filters-or-no-frequencies")
     if snap["purity"] and snap["purity"] < 1.0:
         return run.ood(mon, "baf-rescaled-for-purity")
     out = cna_records(res, ["chromosome", "start", "end", "baf"])
     if [o[:3] for o in out] != snap["segs"]:
-        return run.ood(mon, "rows-changed")
+        if not snap["filters"]:
+            return run.ood(mon, "rows-changed")
+        run.extra["call-baf:judged-on-merged-segments"] += 1
     recs = _het_subset(snap["recs"], snap["cols"])
     wit = {"segments": out[:40], "het_snvs": [(r["chromosome"], r["start"], r["alt_freq"]) for r in recs][:80], "default_row_labels": snap["index_default"]}
     for c, s, e, g in out:
